@@ -289,6 +289,21 @@ theorem list_single_rejected_unchanged (E : Env) (f : FieldSpec) (xs : List Val)
       simp only [hr] at h ⊢
       cases hv : validate E f v <;> simp [hv] at h ⊢
 
+/-- **An index assignment whose index names no item is refused before the new item is looked at** (finding F76): the outcome is
+    the built-in's `IndexError` and the list is unchanged *whatever* the offered item is — acceptable, unacceptable, or an object
+    whose validation would have had effects of its own (a configuration object is linked to the list by being validated). -/
+theorem list_setidx_no_slot (E : Env) (f : FieldSpec) (xs : List Val) (i : Int) (v : Val)
+    (h : resolveIdx xs.length i = none) : lstep E f xs (.setIdx i v) = (xs, .err .index) := by
+  simp [lstep, h]
+
+/-- … and it is the same outcome for any two offered items: the item plays no part. -/
+theorem list_setidx_no_slot_item_irrelevant (E : Env) (f : FieldSpec) (xs : List Val) (i : Int) (v w : Val)
+    (h : resolveIdx xs.length i = none) : lstep E f xs (.setIdx i v) = lstep E f xs (.setIdx i w) := by
+  rw [list_setidx_no_slot E f xs i v h, list_setidx_no_slot E f xs i w h]
+
+/-- non-vacuity: index 5 names no item of a list of two -/
+example : resolveIdx ([Val.int 1, Val.int 2] : List Val).length 5 = none := by decide
+
 /-! ### Typed dicts -/
 
 theorem setSeq_ok (E : Env) (kf vf : Option FieldSpec) : ∀ (kw ks d : List (Val × Val)), validateEntries E kf vf kw = .ok ks →
